@@ -9,20 +9,23 @@ theorem equivOnB_sound (eq : INode → INode → Bool) (S : List INode) (h : equ
     ∀ a ∈ S, ∀ b ∈ S, ∀ c ∈ S,
       eq a a = true ∧ (eq a b = true → eq b a = true) ∧ (eq a b = true → eq b c = true → eq a c = true) := by
   unfold equivOnB at h
-  simp only [List.all_eq_true, Bool.and_eq_true, Bool.or_eq_true, Bool.not_eq_true'] at h
+  simp only [Bool.and_eq_true, List.all_eq_true, Bool.or_eq_true, Bool.not_eq_true', List.mem_map,
+    forall_exists_index, and_imp, forall_apply_eq_imp_iff₂, beq_iff_eq] at h
+  obtain ⟨hrefl, hrows⟩ := h
+  -- related elements have the same row
+  have row : ∀ a ∈ S, ∀ b ∈ S, eq a b = true → ∀ c ∈ S, eq a c = eq b c := by
+    intro a ha b hb hab c hc
+    rcases hrows a ha b hb with h1 | h1
+    · rw [hab] at h1; cases h1
+    · exact List.map_inj_left.mp h1 c hc
   intro a ha b hb c hc
-  have hab := (h a ha).2 b hb
-  refine ⟨(h a ha).1, ?_, ?_⟩
-  · intro e
-    rcases hab with h1 | h1
-    · rw [e] at h1; cases h1
-    · exact h1.1
-  · intro e1 e2
-    rcases hab with h1 | h1
-    · rw [e1] at h1; cases h1
-    · rcases h1.2 c hc with h2 | h2
-      · rw [e2] at h2; cases h2
-      · exact h2
+  refine ⟨hrefl a ha, ?_, ?_⟩
+  · intro hab
+    rw [← row a ha b hb hab a ha]
+    exact hrefl a ha
+  · intro hab hbc
+    rw [row a ha b hb hab c hc]
+    exact hbc
 
 theorem INode.At.zero {s a : INode} (h : INode.At s 0 a) : a = s := by cases h; rfl
 
